@@ -893,9 +893,31 @@ def debug_str_chars(ex, sv):
             hexd = lambda n: Int(z3.If(z3.ULT(n, 10), n + 48, n + 87), 'char')
             if ex.choose([(True, z3.UGE(b, 0x10)), (False, z3.ULT(b, 0x10))]): out.append(hexd(z3.LShR(b, 4)))
             out.append(hexd(b & 0xF)); out.append('}')
-        else: raise Unsupported('Debug of a symbolic non-ASCII character')
+        else:
+            # beyond ASCII: escaped iff not printable or grapheme-extending -- decided with the host's Unicode tables (a model of core::unicode::printable)
+            esc = z3.Or(*[z3.And(z3.UGE(b, lo), z3.ULE(b, hi)) for lo, hi in debug_escaped_ranges()])
+            if ex.choose([(True, esc), (False, z3.Not(esc))]):
+                nd = ex.choose([(n, z3.And(z3.UGE(b, 1 << (4 * (n - 1))), z3.ULT(b, 1 << (4 * n)))) for n in (2, 3, 4, 5)] + [(6, z3.UGE(b, 1 << 20))])
+                hexd = lambda n: Int(z3.If(z3.ULT(n, 10), n + 48, n + 87), 'char')
+                out.extend('\\u{'); out.extend(hexd(z3.LShR(b, 4 * i) & 0xF) for i in range(nd - 1, -1, -1)); out.append('}')
+            else: out.append(c)
     out.append('"')
     return out
+_DBG_ESC = None
+def debug_escaped_ranges():
+    global _DBG_ESC
+    if _DBG_ESC is None:
+        import unicodedata
+        out = []; start = None
+        for cp in range(0x80, 0x110000):
+            if 0xD800 <= cp <= 0xDFFF: hit = False
+            else:
+                ch = chr(cp); hit = (not ch.isprintable()) or unicodedata.category(ch) in ('Mn', 'Me')
+            if hit and start is None: start = cp
+            if not hit and start is not None: out.append((start, cp - 1)); start = None
+        if start is not None: out.append((start, 0x10FFFF))
+        _DBG_ESC = out
+    return _DBG_ESC
 def render_arg(ex, arg):
     v = deref_all(arg.fields[0].v); mode = arg.fields[1].v.tag
     if isinstance(v, StrV):
@@ -1042,11 +1064,20 @@ def dbg_render(n, pretty=False, ind=0):
         if pretty: return '{\n' + ''.join(f'{pad}{dbg_render(k, True, ind + 1)}: {dbg_render(v, True, ind + 1)},\n' for k, v in n.items) + end + '}'
         return '{' + ', '.join(f'{dbg_render(k)}: {dbg_render(v)}' for k, v in n.items) + '}'
     return '<?>'
+def _placeholder(ex, c):
+    ph = ex.__dict__.setdefault('u_ph', {})
+    for k, x in ph.items():
+        if x is c: return k
+    k = chr(0xF0000 + len(ph)); ph[k] = c; return k
+def _restore(ex, text):
+    ph = getattr(ex, 'u_ph', None)
+    return list(text) if not ph else [ph.get(ch, ch) for ch in text]
 def dbg_tree(ex, v):
     while isinstance(v, Ptr): v = v.cell.v          # &T, Box<T>, Rc<T> are transparent in Debug
     if isinstance(v, Agg) and v.lazy is not None: return DNode('atom', f'<symbolic {v.ty}>')
     if isinstance(v, StrV):
-        return DNode('atom', ''.join(debug_str_chars(ex, v)) if v.concrete() is not None else '<symstr>')
+        # symbolic characters travel through the (string-based) renderer as private-use placeholders and are restored by render_chars
+        return DNode('atom', ''.join(ch if isinstance(ch, str) else _placeholder(ex, ch) for ch in debug_str_chars(ex, v)))
     if isinstance(v, Bool): return DNode('atom', fmt_display(ex, v))
     if isinstance(v, Int): return DNode('atom', fmt_display(ex, v) if v.ty != 'char' or v.concrete() is None else repr(chr(v.concrete())))
     if isinstance(v, F64):
@@ -1101,7 +1132,7 @@ def render_chars(ex, args):
             if mode == 'display' and isinstance(v, StrV): out.extend(v.chars)
             elif mode == 'debug' and isinstance(v, StrV) and v.concrete() is None: out.extend(debug_str_chars(ex, v))
             elif mode == 'display' and isinstance(v, Int) and v.ty == 'char' and v.concrete() is None: out.append(v)
-            else: out.extend(render_arg(ex, arg, bool(fl & (1 << 23))))
+            else: out.extend(_restore(ex, render_arg(ex, arg, bool(fl & (1 << 23)))))
             k = idx + 1
     ex.u_fmt_flags = flags_seen
     return out
